@@ -385,6 +385,8 @@ def feature_table(n, boundary_only=False):
     tab = [("misc_feature", p) for p in simple_locations(n, boundary_only=boundary_only)]
     tab += [("CDS", p) for p in join_menu(n)]
     tab += whole_length(n)
+    # zero-length features (between-base markers, GenBank `a^a+1`)
+    tab += [("misc_feature", [(a, a, s)]) for a in (range(n + 1) if not boundary_only else sorted({0, 1, n // 2, n - 1, n})) for s in (1, -1)]
     # features *typed* "source" that do not cover the whole record (e.g. inherited provenance features)
     tab += [("source", [(0, b, 1)]) for b in range(1, n)]
     if n >= 4:
@@ -420,3 +422,43 @@ def degenerate_records(enz, far_words=None):
             out.append(("module", near, w, near + x + o5 + body + o3 + y + w + bb))
             out.append(("vector", near, w, o3 + bb + o5 + y + w + ph + near + x))
     return out
+
+
+def long_word(length, seed=1, forbid=()):
+    """deterministic aperiodic word of any length (linear congruential letters), free of the forbidden sites"""
+    x = 12345 + 7919 * seed
+    out = []
+    for _ in range(length):
+        x = (1103515245 * x + 12345) % (1 << 31)
+        out.append("ACGT"[(x >> 16) & 3])
+    s = "".join(out)
+    words = set()
+    for f in forbid:
+        words.add(f.upper())
+        words.add(rm.revcomp(f.upper()))
+    s = list(s)
+    changed = True
+    while changed:
+        changed = False
+        t = "".join(s)
+        for f in words:
+            i = t.find(f)
+            while i != -1:
+                j = i + len(f) // 2
+                s[j] = {"A": "C", "C": "A", "G": "T", "T": "G"}[s[j]]
+                changed = True
+                i = t.find(f, i + 1)
+            if changed:
+                break
+    return "".join(s)
+
+
+def content_menu(g, o5, o3):
+    """bodies with 'awkward' content for a module with overhangs (o5, o3): homopolymers, dinucleotide repeats, GC-only,
+    AT-only, partial sites, codons, the junction words themselves at either end, mixed case"""
+    site, rsite = g.site, g.rsite
+    menu = ["AAAAAAAAA", "CCCCCCCC", "GGGGGGG", "TTTTTTTTTT", "ATATATATAT", "GCGCGCGCGC", "GGCCGGCCGG", "AATTAATTAA",
+            site[:-1] + "A", "T" + rsite[1:], site[1:] + "T", "ATGAAATAA", "TAGTGATAA",
+            "AC" + o3, o5 + "CA", "CA" + o5, o3 + "AC", o3 + o3, o5 + o5, rm.revcomp(o5) + "A", "A" + rm.revcomp(o3),
+            "acgtACGTacgt", "NNAC"]      # (ambiguity codes other than N are not DNA the structures accept: C17's business)
+    return menu
